@@ -133,14 +133,18 @@ func slotRun(in []byte) (interface{}, error) {
 	}
 	wg.Wait()
 	for i, r := range ranges {
-		conf.Options.FilterKeyWhitelist = []string{"zzz"}
-		conf.Options.FilterKeyBlacklist = nil
-		f1 := filter.FilterKey(out[i].ck)
-		conf.Options.FilterKeyWhitelist = nil
-		f2 := filter.FilterKey(out[i].ck)
-		conf.Options.FilterKeyBlacklist = []string{"zzz"}
-		f3 := filter.FilterKey(out[i].ck)
-		tr.Emit(tracer.Ev{"e": "range", "kind": "ckpt", "lo": r.lo, "hi": r.hi, "k": bytesToInts([]byte(out[i].ck)), "filtered": f1 && f2 && f3})
+		// the checkpoint key must be excluded whatever key filter is configured
+		flt := true
+		for _, c := range [][2][]string{{nil, nil}, {{"zzz"}, nil}, {nil, {"zzz"}}, {{"r"}, nil}, {{"redis-shake"}, nil},
+			{{"redis-shake-checkpoint"}, nil}, {{out[i].ck}, nil}, {nil, {"r"}}, {{"a", "redis-shake-checkpoint-"}, nil}} {
+			conf.Options.FilterKeyWhitelist = c[0]
+			conf.Options.FilterKeyBlacklist = c[1]
+			if !filter.FilterKey(out[i].ck) {
+				flt = false
+			}
+		}
+		conf.Options.FilterKeyWhitelist, conf.Options.FilterKeyBlacklist = nil, nil
+		tr.Emit(tracer.Ev{"e": "range", "kind": "ckpt", "lo": r.lo, "hi": r.hi, "k": bytesToInts([]byte(out[i].ck)), "filtered": flt})
 		tr.Emit(tracer.Ev{"e": "range", "kind": "lat", "lo": r.lo, "hi": r.hi, "k": bytesToInts([]byte(out[i].lat)), "filtered": false})
 	}
 	return map[string]interface{}{"keys": nkeys, "ranges": len(ranges), "events": tr.Count()}, nil
